@@ -210,7 +210,7 @@ class Check(PropertyCheck):
     extractors = ["x_sqlitedb", "x_enginefp"]
     harnesses = [("vc03", "plain"), ("vengine", "plain")]
     assumptions = [
-        "SQLite's rollback journal makes BEGIN EXCLUSIVE .. END atomic and durable across process death (supported, not proved, by the kill-point enumeration: every system call on the database/journal of every transaction of short histories and of histories in which one build stores 3 .. 3162 results (thorough: .. 10000, and one transaction larger than SQLite's page cache), each survivor also continued by one more build)",
+        "SQLite's rollback journal makes BEGIN EXCLUSIVE .. END atomic and durable across process death (supported, not proved, by the kill-point enumeration: every system call on the database/journal of every transaction of short histories and of histories in which one build stores 3 .. 3162 results and one 4200 .. 4800 (thorough: .. 10000, and one transaction larger than SQLite's page cache), each survivor also continued by one more build)",
         "one transaction per build is read off the source text: C04_one_transaction_per_build compares the extractor's list of transaction-control / PRAGMA statements per function, of SQL arguments that are not literals, and of sqlite3 API functions used, with the shape the model assumes; SQL text assembled at run time would be visible only as a new non-literal argument or API function",
         "WellFormedBuild (explicit hypothesis of C04_committed_inv): writes happen inside buildStarted/buildComplete, every epoch written is <= e = stored iteration + 1, and setCurrentIteration(e) precedes buildComplete (BuildEngine.cpp:1561,1605)",
         "C04_committed_inv is proved for histories of ONE connection slot at a time (processes in sequence); concurrent connections are covered by C03_writes_need_lock only",
@@ -541,6 +541,10 @@ class Check(PropertyCheck):
             srng = C.Rng(ctx.seed, "C04/sized")
             bounds = HALF_DECADES if ctx.thorough else HALF_DECADES[:7]
             plan = [(lo + srng.below(hi - lo), 12) for _ in range(2 if ctx.thorough else 1) for lo, hi in zip(bounds, bounds[1:])]
+            if not ctx.thorough:
+                # one build beyond 4096 results also in the quick tier: thresholds at powers of two (a checkpoint "every 4096
+                # results", seeded C04-5) are invisible below them
+                plan.append((4200 + srng.below(600), 12))
             if ctx.thorough:
                 # a transaction larger than SQLite's default page cache (2000 KiB): dirty pages are spilled to the
                 # database file (after a journal sync) long before END
@@ -581,7 +585,7 @@ class Check(PropertyCheck):
             fired, nh, len(sized), max(x["results_stored_by_the_large_build"] for x in sized)))
         res.rule = ("kill-point enumeration: for every N from 1 to the number of system calls (open/openat/write/pwrite/fsync/fdatasync/ftruncate/"
                     "unlink/rename) that touch the database or its journal during a multi-build history (short ones, and sized ones in which one build "
-                    "stores n results, n drawn from every half-decade from 3 to 3162 / 10000, plus in the thorough tier a transaction larger than the "
+                    "stores n results, n drawn from every half-decade from 3 to 3162 plus one build of 4200 .. 4800 results (thorough: to 10000), plus in the thorough tier a transaction larger than the "
                     "page cache), the history is run in a child and killed before the N-th call; the survivor is read with sqlite3 and with a fresh "
                     "BuildDB, which then continues with one more build.  Non-trivial = kill points that fired.  "
                     "This supports the atomicity assumption; it is not part of the proof.")
